@@ -57,7 +57,7 @@ RULE = ("`Exclude<A, B>` (A a union of 2–4 scalar / literal / object / list me
 def run(chk):
     chk.build_rust(); chk.build_js()
     quick = chk.tier == "quick"
-    passes = [_corpus] + ([_pass(chk.seed * 100 + 7, 3000, "sem(random)")] if quick else [_pass(chk.seed * 100 + k, 20000, f"sem(random#{k})") for k in range(5)])
+    passes = [_corpus] + ([_pass(chk.seed * 100 + 7, 7000, "sem(random)")] if quick else [_pass(chk.seed * 100 + k, 20000, f"sem(random#{k})") for k in range(5)])
     return vcheck.generic_run(chk, MODULES, AUDIT, passes,
         ["C07: Model/ToSchema.lean is a hand-written port of to_schema.rs, remove_nots_of_intersections_and_empty_of_union, keyof / mapping_indexed_access / list_indexed_access "
          "and the frontend glue (Exclude, convert_keyof, do_indexed_access_on_types incl. the syntactic shortcut) on the fragment of C05; the smart constructors any_of / all_of and "
